@@ -529,6 +529,69 @@ func checkC15(job *Job, res *Result) {
 				res.Violate("C15/hang:restarts", x.Err+" ["+org.name+"]", nil)
 			}
 		}
+		// ---- the read-only mode outlives restarts: ALL sequences of length <= 4 over
+		// {READONLY yes, READONLY no, restart}, each followed by one more restart; after
+		// every step a write is refused exactly when the last READONLY said yes
+		{
+			var seqs [][]int
+			var gen func(cur []int)
+			gen = func(cur []int) {
+				if len(cur) > 0 {
+					seqs = append(seqs, append([]int(nil), cur...))
+				}
+				if len(cur) == 4 {
+					return
+				}
+				for e := 0; e < 3; e++ {
+					gen(append(cur, e))
+				}
+			}
+			gen(nil)
+			evn := []string{"READONLY yes", "READONLY no", "restart"}
+			for _, seq := range seqs {
+				seq := append(append([]int(nil), seq...), 2)
+				var names []string
+				for _, e := range seq {
+					names = append(names, evn[e])
+				}
+				x := runExec(job, freezeAllBut(), func(x *Exec) {
+					dir := x.dir + "/L"
+					life := 1
+					in := x.Start("L1", dir, 9001, nil)
+					c := x.Dial(in.Addr)
+					ro := false
+					it := c15Inst{Cmd: "SET", Wrapper: "read-only mode across restarts: " + strings.Join(names, ", "), Args: w("SET k1 probe POINT 1 1")}
+					for step, e := range seq {
+						switch e {
+						case 0, 1:
+							ro = e == 0
+							if r := c.Do(strings.Fields(evn[e])...); r.String() != "+OK" {
+								viol("readonly-setup", fmt.Sprintf("%s replied %s", evn[e], r), it, "readonly-restarts")
+							}
+						case 2:
+							c.Close()
+							in.Stop()
+							vsched.Paused[in.Name] = true
+							life++
+							in = x.Start(fmt.Sprint("L", life), dir, 9000+life, nil)
+							c = x.Dial(in.Addr)
+						}
+						before, _ := internalDump(in.S)
+						r := c.Do("SET", "k1", fmt.Sprint("probe", step), "POINT", "1", "1")
+						after, _ := internalDump(in.S)
+						res.Evaluations++
+						if refused := r.IsErr() && strings.Contains(r.String(), "read only"); refused != ro || (ro && before != after) {
+							viol("readonly-mode-not-kept", fmt.Sprintf("after step %d (%s) the last READONLY said yes=%v, but SET replied %s (dataset changed: %v)", step+1, evn[e], ro, r, before != after), it, "readonly-restarts")
+							break
+						}
+					}
+					res.DistinctS(fmt.Sprint("ro-restarts", ro, len(seq)))
+				})
+				if x.Err != "" {
+					res.Violate("C15/hang:readonly-restarts", x.Err+" ["+strings.Join(names, ", ")+"]", nil)
+				}
+			}
+		}
 		// ---- protected mode decided at run time: the password / protected-mode settings change while the server runs
 		for _, tr := range []struct{ name, cfg string; cmds [][]string; wantDenied bool }{
 			{"password removed", `{"requirepass":"pw"}`, [][]string{{"AUTH", "pw"}, {"CONFIG", "SET", "requirepass", ""}}, true},
